@@ -174,7 +174,7 @@ STOPS_NOTE = (" The shipped stop conditions (gsc.py: RootStopped, AllStopped, Si
               "_transform_weights under __call__'s guard, with the number of levels it is given) is translated too and proved equal to the weights the machine is configured "
               "with (effective_weights_ok, weights_nlevels_ok; 'equal' = the plain total, 'root' = the root level only); SingularProblemPrecisionReached is translated as a read of the hit_precision flag of the "
               "wrapper it was constructed with (Gen/GenStopsPrecision.v; with the wrapper model of Model/Problem.v: holds exactly when some forwarded value was within the precision, and "
-              "latches — Proofs/GenEquivStopsPrecision.v); its verdicts in the machine replay, and FitnessSteadiness, stay oracles.")
+              "latches — Proofs/GenEquivStopsPrecision.v); its verdicts in the machine replay stay oracles; of FitnessSteadiness the early return is translated and proved to be the part of the verdict the machine computes (LSteadiness n: false while fewer than n metaepochs were run), the float-valued rest is shape-checked only and an oracle.")
 
 
 def install(g, pid, *, text, note, technique, quick, thorough, mons=None, forces=None, nontrivial=None, rule="", extra_checks=None,
